@@ -256,7 +256,7 @@ def to_exec_trace(tid, scn, res):
         return None
     if scn.get("git") or any(e["e"] in ("Kill", "Abort", "Hang") for e in res["events"]):
         return None
-    if scn["sched"].get("unrelated") or scn.get("dup_spelling") or scn["sched"].get("allow_stop"):
+    if scn["sched"].get("unrelated") or scn.get("dup_spelling") or scn.get("ambient"):
         return None
     evs = []
     for e in res["events"]:
@@ -285,6 +285,8 @@ def to_exec_trace(tid, scn, res):
             evs.append({"e": "Exit", "t": num.get(e["t"], 0), "c": 0 if e.get("code") == 0 else 1})
         elif k == "Handler":
             evs.append({"e": "Handler"})
+        elif k in ("Stop", "Cont"):
+            evs.append({"e": k, "t": num.get(e["t"], 0)})
         elif k == "Return":
             st = e["exit"]
             evs.append({"e": "Return", "exit": st if isinstance(st, int) else -1})
